@@ -211,6 +211,8 @@ type SliceOpts struct {
 	MaxDepth int // interprocedural depth through static callees' returns (0 = stop at calls)
 	// StopAt: do not look behind these values (treated as leaves).
 	StopAt func(ssa.Value) bool
+	// ThroughCalls: a call result also derives from the call's receiver and arguments.
+	ThroughCalls bool
 }
 
 // Leaves computes the leaves of the backward slice of v inside its function
@@ -308,6 +310,16 @@ func Leaves(v ssa.Value, opts SliceOpts) []ssa.Value {
 							continue
 						}
 					}
+					visit(a, depth)
+				}
+				return
+			}
+			if opts.ThroughCalls {
+				addLeaf(v)
+				if x.Call.IsInvoke() {
+					visit(x.Call.Value, depth)
+				}
+				for _, a := range x.Call.Args {
 					visit(a, depth)
 				}
 				return
